@@ -2,8 +2,8 @@ package sx
 
 import (
 	"fmt"
-	"os"
 	"go/types"
+	"os"
 
 	"golang.org/x/tools/go/ssa"
 
@@ -15,6 +15,8 @@ type mutexState struct {
 	readers int
 	owner   int
 }
+
+func a0ptr(v Value) *Value { p, _ := v.(*Value); return p }
 
 type poolState struct{ items []Value }
 
@@ -238,6 +240,73 @@ func init() {
 		in.schedPoint("WaitGroup.Wait")
 		in.block("WaitGroup.Wait", func() bool { return st.n == 0 })
 		return nil
+	})
+
+	// unsafe.Pointer-valued atomics (atomic.Pointer[T] is interpreted from source on top of these)
+	reg("sync/atomic.LoadPointer", func(in *Interp, fr *frame, a []Value) Value {
+		in.schedPoint("atomic.Load")
+		return *(a[0].(*Value))
+	})
+	reg("sync/atomic.StorePointer", func(in *Interp, fr *frame, a []Value) Value {
+		in.schedPoint("atomic.Store")
+		*(a[0].(*Value)) = a[1]
+		return nil
+	})
+	reg("sync/atomic.SwapPointer", func(in *Interp, fr *frame, a []Value) Value {
+		in.schedPoint("atomic.Swap")
+		p := a[0].(*Value)
+		old := *p
+		*p = a[1]
+		return old
+	})
+	reg("sync/atomic.CompareAndSwapPointer", func(in *Interp, fr *frame, a []Value) Value {
+		in.schedPoint("atomic.CAS")
+		p := a[0].(*Value)
+		cur, _ := (*p).(UnsafePtr)
+		old, _ := a[1].(UnsafePtr)
+		if cur.P == old.P {
+			*p = a[2]
+			return Bool{C: true}
+		}
+		return Bool{C: false}
+	})
+	// atomic.Value: the real implementation reinterprets interface words through unsafe; modelled as a cell
+	avCell := func(in *Interp, v Value) *Iface {
+		p := a0ptr(v)
+		c, _ := in.side[p].(*Iface)
+		if c == nil {
+			c = &Iface{}
+			in.side[p] = c
+		}
+		return c
+	}
+	reg("(*sync/atomic.Value).Load", func(in *Interp, fr *frame, a []Value) Value {
+		in.schedPoint("atomic.Load")
+		return *avCell(in, a[0])
+	})
+	reg("(*sync/atomic.Value).Store", func(in *Interp, fr *frame, a []Value) Value {
+		in.schedPoint("atomic.Store")
+		v := a[1].(Iface)
+		if v.T == nil {
+			in.goPanic("sync/atomic: store of nil value into Value")
+		}
+		c := avCell(in, a[0])
+		if c.T != nil && !types.Identical(c.T, v.T) {
+			in.goPanic("sync/atomic: store of inconsistently typed value into Value")
+		}
+		*c = v
+		return nil
+	})
+	reg("(*sync/atomic.Value).Swap", func(in *Interp, fr *frame, a []Value) Value {
+		in.schedPoint("atomic.Swap")
+		v := a[1].(Iface)
+		if v.T == nil {
+			in.goPanic("sync/atomic: swap of nil value into Value")
+		}
+		c := avCell(in, a[0])
+		old := *c
+		*c = v
+		return old
 	})
 
 	// sync/atomic free functions (typed wrappers are interpreted from source)
